@@ -26,6 +26,7 @@ fn run_case(fam: &str, args: &[i128]) -> Vec<i128> {
         "contextbig" => context::run_big(args),
         f if f.starts_with("ugraphbig_") => ugraph::run_big(args, f[10..].parse().unwrap()),
         f if f.starts_with("ugraph_") => ugraph::run(args, f[7..].parse().unwrap()),
+        f if f.starts_with("ugraphc_") => ugraph::run_c(args, f[8..].parse().unwrap(), true),
         f if f.starts_with("spath_") => ugraph::run_spath(args, f[6..].parse().unwrap()),
         _ => panic!("unknown family {fam}"),
     }
